@@ -51,6 +51,12 @@
 //                                            during it, is pinned by the address, and every certhash of the address is
 //                                            confirmed before and after (counterpart of verifier/rejected-valid; includes
 //                                            "a learned address keeps verifying" while the manager keeps running)
+// Fault: clock jumps (trajectory stratum, drawn apart from the fault-free runs). The manager gets vsJumpClock (Now() =
+// bubble clock + offset, timers on the bubble clock); the offset jumps forward at drawn steps. All oracles are judged on
+// the jumped wall clock. Relaxation, stated once in vsLateModel: from the instant a roll-over is due until the instant
+// the pending timer — armed before the jump(s), hence late by their sum — fires, the manager cannot have rolled; only
+// there served/valid-until and advertised/next-missing are suspended. From that firing on everything holds for good;
+// a valid-until failure after a jump gets the class served/valid-until/after-clock-jump.
 // Weaker readings taken (guide rule 1/6): period ends are exclusive (at the exact roll-over instant either
 // certificate may be served); a certificate period ends at NotAfter-skew (package doc comment: "we stop using a
 // certificate one clockSkewAllowance before its expiry"); the end of the *following* period is read from the
@@ -95,6 +101,11 @@
 //     dial(): VerifyPeerCertificate returns nil             dial/completed-without-pinned-certificate
 //     listener sends only the first of its hashes           dial/refused-valid-address
 //     rollConfig(): lastConfig assigned after the caches    learned-addr/hash-not-confirmed/same-incarnation (seed C18b-1)
+//   cert_manager.go under clock jumps
+//     timer re-armed with the constant period instead of    served/valid-until/after-clock-jump at the first sample after the
+//       End-skew-Now() (third-round seed C18c-1)              NEXT due roll-over following a late one (e.g. 1 min jump 1 ns before
+//                                                             roll-over #1, sample 1 s after roll-over #2 is due)
+//     no immediate catch-up when d <= 0 (waits a period)    served/valid-until/after-clock-jump (after a jump longer than a period)
 //   Not caught, by design: key-derived offset dropped (getCurrentBucketStartTime(start, 0)) — all hosts then rotate
 //   at the same instants, which the statement does not forbid (equivalent mutant for this property).
 // Found on the pinned tree by this harness before the fixes 42df5f3 / 581fd0e: chain-pinned-cert-not-first,
@@ -317,6 +328,7 @@ type vsTraj struct {
 	off           *atomic.Int64 // wall clock = bubble clock + off (nil: no jumps in this stratum)
 	model         *vsLateModel  // when the pending roll-over timer of a correct manager fires (nil: always on time)
 	jumpSincePrev bool          // a clock jump happened since the previous sample
+	jumped        bool          // a clock jump happened during the life of the current incarnation
 }
 
 // wall is the wall clock everybody but the manager's timers lives on: the truth for every oracle.
@@ -505,7 +517,12 @@ func (tr *vsTraj) take(m *certManager, inc int) *vsSample {
 			s.idx, tr.rel(now), s.cert, now.Sub(c.nb), vsSkew)
 	}
 	if now.After(c.na.Add(-vsSkew)) && !s.overdue {
-		o.Violate("C18/served/valid-until", "sample#%d at %s: served cert#%d stays valid for %s only (< clock-skew allowance %s)",
+		class := "C18/served/valid-until"
+		if tr.jumped {
+			// the manager's timer is not excused by a jump any more (see vsLateModel): it did not get back in step
+			class += "/after-clock-jump"
+		}
+		o.Violate(class, "sample#%d at %s: served cert#%d stays valid for %s only (< clock-skew allowance %s)",
 			s.idx, tr.rel(now), s.cert, c.na.Sub(now), vsSkew)
 	}
 	if l := c.na.Sub(c.nb); l > vsMaxLifetime {
@@ -697,6 +714,7 @@ func vsTrajectory(t *testing.T, tape *simrt.Tape, g simrt.Gen, o *common.Outcome
 					simrt.TimeSleep(gap)
 				}
 				tr.model.arm(tr.wall())
+				tr.jumped = false
 				m, err = newCertManager(priv, cl)
 				if err != nil {
 					o.Violate("C18/start-failed", "newCertManager (restart) at %s: %v", tr.rel(tr.wall()), err)
@@ -738,7 +756,7 @@ func vsTrajectory(t *testing.T, tape *simrt.Tape, g simrt.Gen, o *common.Outcome
 				J := vsJumpSizes[g.Int(len(vsJumpSizes))]
 				off.Add(int64(J))
 				tr.model.late += J
-				tr.jumpSincePrev = true
+				tr.jumpSincePrev, tr.jumped = true, true
 				jumps++
 				o.Fault("clock-jump-forward")
 				switch {
